@@ -108,3 +108,17 @@ def check_symmetric(ctx, rule, w, params, key):
     ctx.ob(rule, "%s|symmetric-in-the-reserves" % key, bool(base) and not bad,
            ("operations applied to the reserves and the consumers of their results are invariant under exchanging the reserves: %s" % sorted(map(repr, base)))
            if not bad else "not symmetric: %s" % bad, w.where())
+
+
+def check_newton_step(ctx, rule, v, amp, d, dprod, sumx, n, key):
+    """The Newton step of the invariant solver is d' = (Ann*S + Dp*n) * d / ((Ann - 1)*d + (n + 1)*Dp) with Ann = amp * n
+    (operator tree of the returned value, spelling normalised). Dropping the n of Ann prices deposits with half the
+    amplification while swaps keep the full one."""
+    rets = []
+    for b, i, s_ in v.iter_stmts():
+        if s_["lhs"]["l"] == 0 and s_["rv"]["r"] == "agg" and s_["rv"].get("variant") == "Some":
+            rets.append(norm_shape(expr_shape(v, s_["rv"]["ops"][0], (b, i), depth=9)))
+    ann = ("mul", (amp, n))
+    want = norm_shape(("div", (("mul", (d, ("add", (("mul", (ann, sumx)), ("mul", (dprod, n)))))),
+                               ("add", (("mul", (d, ("sub", (ann, "const(1)")))), ("mul", (dprod, ("add", (n, "const(1)")))))))))
+    ctx.ob(rule, "%s|newton-step" % key, rets == [want], "returned value %s (expected %s)" % (rets, want), v.where())
